@@ -29,10 +29,11 @@ Definition J_qparam (p : qparam) : J :=
    equality. *)
 Record tensor := {
   t_root : Z; t_sfx : list Z;
-  t_shape : Z;               (* opaque id *)
+  t_shape : Z;               (* opaque id of the shape; by construction id mod 8 = rank *)
   t_ty : Z; t_buf : Z;
   t_q : option Z             (* id of the attached uniform parameters *)
 }.
+Definition t_rank (t : tensor) : Z := t_shape t mod 8.
 Definition name_eqb (a b : tensor) : bool :=
   Z.eqb (t_root a) (t_root b) && list_eqb Z.eqb (t_sfx a) (t_sfx b).
 
